@@ -50,6 +50,7 @@ type semECS struct {
 	Len   int    `json:"len"`
 	Addr  string `json:"addr"`
 	Scope int    `json:"scope"`
+	Raw   []int  `json:"raw"` // when set: the address bytes exactly as they go on the wire (may carry bits beyond Len)
 }
 
 type semIn struct {
@@ -123,16 +124,31 @@ type semBackend struct {
 }
 
 type semWriter struct {
-	ip  net.IP
-	msg *dns.Msg
-	n   int
+	ip      net.IP
+	msg     *dns.Msg
+	n       int
+	packErr string
+	size    int
 }
 
 func (w *semWriter) LocalAddr() net.Addr  { return &net.UDPAddr{IP: net.ParseIP("127.0.0.1"), Port: 53} }
 func (w *semWriter) RemoteAddr() net.Addr { return &net.UDPAddr{IP: w.ip, Port: 40212} }
 func (w *semWriter) WriteMsg(m *dns.Msg) error {
+	// what the client receives is the packed form: pack and unpack (an unpackable message is kept as is and flagged)
 	w.msg = m.Copy()
 	w.n++
+	wire, err := m.Pack()
+	if err != nil {
+		w.packErr = "pack: " + err.Error()
+		return nil
+	}
+	u := new(dns.Msg)
+	if err := u.Unpack(wire); err != nil {
+		w.packErr = "unpack: " + err.Error()
+		return nil
+	}
+	w.msg = u
+	w.size = len(wire)
 	return nil
 }
 func (w *semWriter) Write(b []byte) (int, error) { return len(b), nil }
@@ -261,7 +277,14 @@ func semBuildQuery(in *semIn) *dns.Msg {
 		if in.DO {
 			o.SetDo()
 		}
-		if in.ECS != nil {
+		if in.ECS != nil && in.ECS.Raw != nil {
+			// hand-made option 8: family, source length, scope, address bytes as given
+			data := []byte{byte(in.ECS.F >> 8), byte(in.ECS.F), byte(in.ECS.Len), byte(in.ECS.Scope)}
+			for _, b := range in.ECS.Raw {
+				data = append(data, byte(b))
+			}
+			o.Option = append(o.Option, &dns.EDNS0_LOCAL{Code: dns.EDNS0SUBNET, Data: data})
+		} else if in.ECS != nil {
 			e := new(dns.EDNS0_SUBNET)
 			e.Code = dns.EDNS0SUBNET
 			e.Family = uint16(in.ECS.F)
@@ -313,6 +336,9 @@ func semServe(b *semBackend, in *semIn) (resp semResp) {
 	r := semNorm(w.msg)
 	if w.n > 1 {
 		r.Err = fmt.Sprintf("written %d times", w.n)
+	}
+	if w.packErr != "" {
+		r.Err = w.packErr
 	}
 	return r
 }
